@@ -50,8 +50,9 @@
      thunk (level-1 forcing lemma).
      NOT proved: mutable scoped variables; inherited names outside (d); programs whose eager positions or definition
      scopes depend on scoped variables (the checker accepts some of them, e.g. a definition scope `@x.owner`, and
-     lazy execution then depends on the order of forcing); `(node)` calls, for which only isomorphism can hold; an
-     arbitrary interleaving of the matches of different stanzas as tree-sitter reports them for the merged query.
+     lazy execution then depends on the order of forcing); `(node)` calls, for which only isomorphism can hold.  (An
+     arbitrary interleaving of the matches of different stanzas as tree-sitter reports them for the merged query: see
+     strict_lazy_iso_any_order_scoped_partial below, on the intersection with the scoped fragment of C08.)
    * strict_fail_lazy_fail_partial — the FAILURE direction on fragment v1 (Proofs/SLFailGraph.v, SLFailStore.v, SLFailEval.v,
      SLFailExpr.v, SLFailStmt.v): if strict execution returns Err e and the root cause of e is neither UndefinedEdge
      (order dependent: strict_fail_lazy_ok_undefined_edge) nor Cancelled, then lazy execution of the same file on the same
@@ -70,6 +71,22 @@
      definition of the same (node, name) are order dependent / deferred to the cells); "lazy IS Err from some fuel on"
      — FALSE in the model: lazy execution runs the statements after the failure point, which may diverge
      (strict_fail_lazy_diverges_k2).
+   * strict_lazy_iso_any_order_partial, strict_lazy_iso_any_order_scoped_partial (+ the `_every_fuel` forms) — ARBITRARY INTERLEAVING of the
+     matches (Proofs/SLAny.v): the real lazy interpreter does not visit the matches in strict order; it executes the blocks in the order
+     tree-sitter reports the matches of the merged query, a list ms' with Permutation (lmatches_of ms) ms' (assumption A3 of C03, validated per
+     case).  Composition of the theorems above with the block-order theorems of Props/C08.v (both are about the same driver `run_lazy` over a
+     flat list of (stanza index, match) blocks): strict success implies that the lazy run on EVERY such ms' never fails or panics, succeeds
+     from some fuel on, and returns a graph ISOMORPHIC to the strict graph under an explicit bijection of node ids that fixes the nodes of g0
+     (`graph_iso`, Proofs/BlockPermGraph.v: equality is lost because the blocks create their nodes in another order).  Fragment = the
+     intersection of the fragments: v1: `file_ok` (it IMPLIES the block predicate `pm_ok` of C08: file_ok_blocks_ok_partial), functions
+     `call_ok` (graph-pure AND equivariant under order-preserving renamings; it implies `pure_fn`/`pure_err_fn`: call_ok_pure_partial; the
+     stdlib except node/format/join), g0 closed and globals only mention nodes of g0; with scoped variables: the conjunction
+     `file_ok2 ..ms /\ Forall (pm_ok2 fl okfn) (lmatches_of ms)` (definitions with a capture as scope and a scoped-free value, reads in the
+     deferred positions of statements — not inside values of local variables, call arguments or sets) and `inh_antichain`.
+     strict_fail_lazy_fail_any_order_partial / strict_fail_lazy_err_any_order_partial: the failure direction on fragment v1 for every order.
+     strict_lazy_iso_run_one_partial, .._scoped_partial, strict_fail_lazy_fail_run_one_partial: the same about `run_one` (Model/Run.v), the function
+     the correspondence harness evaluates for both modes (strict on ri_smatches, lazy on ri_lmatches, at default_fuel).
+     Examples: strict_lazy_iso_any_order_nonvacuous (two stanzas, three matches each, the definer of `@x.n` and its reader interleaved, a reader first).
    * building blocks named in DESIGN.md §7 C02 — the two interpreters' copies of capture binding, regex-capture
      lookup and scan-arm selection compute the same thing, and the lazy store's forcing discipline (a thunk is
      forced at most once, every reader sees one value).
@@ -77,7 +94,9 @@
    correspondence streams. *)
 From TSG Require Import Model.Strict Model.Lazy Model.Run Model.Stdlib Proofs.Captures Proofs.MonadFacts Proofs.K7
   Proofs.SLExpr Proofs.StrictLazy Proofs.SLExample Proofs.SL2Expr Proofs.SL2Stmt Proofs.SL2Whole Proofs.SL2Adequate Proofs.SL2Example
-  Proofs.Extends Proofs.NoPanicStrict Proofs.NoPanicLazy Proofs.SLFailGraph Proofs.SLFailExpr Proofs.SLFailStmt Proofs.SLFailExample.
+  Proofs.Extends Proofs.NoPanicStrict Proofs.NoPanicLazy Proofs.SLFailGraph Proofs.SLFailExpr Proofs.SLFailStmt Proofs.SLFailExample
+  Proofs.BlockPermRen Proofs.BlockPermGraph Proofs.BlockPermExec Proofs.BlockPermExample Proofs.ScPermExec Proofs.SLAny Proofs.SLAnyExample.
+From Coq Require Import Permutation.
 
 (* `$k` has the same value in both modes; out of range is UndefinedRegexCapture in both *)
 Theorem lazy_regex_capture_partial : forall t fl glob call fuel fuel' (le : lenv) (ll : llenv) i s p sl pl,
@@ -348,6 +367,240 @@ Proof.
   exists k7_tree, k7_file, k7_smatches, k7_lmatches. eexists. split; [reflexivity|]. split; [reflexivity|].
   split; [exact k7_strict_ok|exact k7_lazy_fails].
 Qed.
+
+(* ================= ARBITRARY INTERLEAVING OF THE MATCHES (composition with Props/C08.v; Proofs/SLAny.v) =================
+   ms' is ANY list of (stanza index, match) blocks that is a permutation of the strict order `lmatches_of ms` — in particular the order in which
+   tree-sitter reports the matches of the merged query, which is what the lazy interpreter executes.  `graph_iso r g g'` (Proofs/BlockPermGraph.v):
+   equal sizes, node i of g corresponds to node r i of g', attribute maps equal as maps after renaming the node references inside values, edge
+   vectors hold the renamed sinks with equal attribute maps. *)
+
+(* bridges between the hypotheses of the two families *)
+Theorem file_ok_blocks_ok_partial : forall (okfn : ident -> Prop) fl ms, file_ok okfn fl (f_stanzas fl) ms -> Forall (pm_ok fl okfn) (lmatches_of ms).
+Proof. exact file_ok_pm_ok. Qed.
+Theorem call_ok_pure_partial : forall call f, call_ok call f -> pure_fn call f /\ pure_err_fn call f.
+Proof. intros call f H. split; [apply call_ok_pure_fn, H|apply call_ok_pure_err_fn, H]. Qed.
+
+(* fragment v1: strict success => for every order of the blocks the lazy run succeeds from some fuel on, with a graph isomorphic to the strict one *)
+Theorem strict_lazy_iso_any_order_partial :
+  forall (rx : Type) t fl supplied (regexes : list rx) find call (okfn : ident -> Prop),
+  (forall f, okfn f -> call_ok call f) ->
+  forall g0 : graph, gclosed (N.of_nat (length g0)) g0 ->
+  (forall glob, check_globals (f_globals fl) (globals_nested supplied) = Ok glob ->
+     forall name v, globals_get glob name = Some v -> vall (fun i => i < N.of_nat (length g0)) v) ->
+  forall fuel ms s p (ms' : list (N * qmatch)),
+  file_ok okfn fl (f_stanzas fl) ms ->
+  run_strict t fl config0 supplied None regexes find call fuel ms g0 = Ok (s, p) ->
+  Permutation (lmatches_of ms) ms' ->
+  exists r r', (forall i, r' (r i) = i) /\ (forall i, r (r' i) = i) /\ (forall i, i < N.of_nat (length g0) -> r i = i) /\
+    exists lfuel0, forall lfuel, (lfuel0 <= lfuel)%nat -> exists ls pl,
+      run_lazy t fl config0 supplied None regexes find call lfuel ms' g0 = Ok (ls, pl) /\ graph_iso r (s_graph s) (l_graph ls).
+Proof. exact @strict_lazy_iso_any_order_lemma. Qed.
+(* ... and at EVERY lazy fuel: no error, no panic; unless the model runs out of fuel, a graph isomorphic to the strict one (one bijection for all fuels) *)
+Theorem strict_lazy_iso_any_order_every_fuel_partial :
+  forall (rx : Type) t fl supplied (regexes : list rx) find call (okfn : ident -> Prop),
+  (forall f, okfn f -> call_ok call f) ->
+  forall g0 : graph, gclosed (N.of_nat (length g0)) g0 ->
+  (forall glob, check_globals (f_globals fl) (globals_nested supplied) = Ok glob ->
+     forall name v, globals_get glob name = Some v -> vall (fun i => i < N.of_nat (length g0)) v) ->
+  forall fuel ms s p (ms' : list (N * qmatch)),
+  file_ok okfn fl (f_stanzas fl) ms ->
+  run_strict t fl config0 supplied None regexes find call fuel ms g0 = Ok (s, p) ->
+  Permutation (lmatches_of ms) ms' ->
+  exists r r', (forall i, r' (r i) = i) /\ (forall i, r (r' i) = i) /\ (forall i, i < N.of_nat (length g0) -> r i = i) /\
+    forall lfuel, match run_lazy t fl config0 supplied None regexes find call lfuel ms' g0 with
+                  | Ok (ls, _) => graph_iso r (s_graph s) (l_graph ls)
+                  | OutOfFuel => True
+                  | Err _ | Panic _ => False
+                  end.
+Proof. exact @strict_lazy_iso_any_order_every_fuel_lemma. Qed.
+
+(* WITH scoped variables: the intersection of fragment v2 (`file_ok2`, strict_lazy_adequate_scoped_partial) and of the scoped fragment of C08 (`pm_ok2`,
+   lazy_block_order_iso_scoped_partial), as the conjunction of the two predicates on the same file and matches.  Strict execution succeeds only if every
+   definition ran before its readers; the lazy run may execute a reader's block BEFORE the definer's block (strict_lazy_iso_any_order_nonvacuous). *)
+Theorem strict_lazy_iso_any_order_scoped_partial :
+  forall (rx : Type) t fl supplied (regexes : list rx) find call (okfn : ident -> Prop),
+  (forall f, okfn f -> call_ok call f) ->
+  forall g0 : graph, gclosed (N.of_nat (length g0)) g0 ->
+  (forall glob, check_globals (f_globals fl) (globals_nested supplied) = Ok glob ->
+     forall name v, globals_get glob name = Some v -> vall (fun i => i < N.of_nat (length g0)) v) ->
+  forall (purev : ident -> bool) fuel ms s p (ms' : list (N * qmatch)),
+  file_ok2 okfn purev fl (f_stanzas fl) ms ->
+  Forall (pm_ok2 fl okfn) (lmatches_of ms) ->
+  run_strict t fl config0 supplied None regexes find call fuel ms g0 = Ok (s, p) ->
+  inh_antichain t fl (s_scoped s) ->
+  Permutation (lmatches_of ms) ms' ->
+  exists r r', (forall i, r' (r i) = i) /\ (forall i, r (r' i) = i) /\ (forall i, i < N.of_nat (length g0) -> r i = i) /\
+    exists lfuel0, forall lfuel, (lfuel0 <= lfuel)%nat -> exists ls pl,
+      run_lazy t fl config0 supplied None regexes find call lfuel ms' g0 = Ok (ls, pl) /\ graph_iso r (s_graph s) (l_graph ls).
+Proof. exact @strict_lazy_iso_any_order_scoped_lemma. Qed.
+Theorem strict_lazy_iso_any_order_scoped_every_fuel_partial :
+  forall (rx : Type) t fl supplied (regexes : list rx) find call (okfn : ident -> Prop),
+  (forall f, okfn f -> call_ok call f) ->
+  forall g0 : graph, gclosed (N.of_nat (length g0)) g0 ->
+  (forall glob, check_globals (f_globals fl) (globals_nested supplied) = Ok glob ->
+     forall name v, globals_get glob name = Some v -> vall (fun i => i < N.of_nat (length g0)) v) ->
+  forall (purev : ident -> bool) fuel ms s p (ms' : list (N * qmatch)),
+  file_ok2 okfn purev fl (f_stanzas fl) ms ->
+  Forall (pm_ok2 fl okfn) (lmatches_of ms) ->
+  run_strict t fl config0 supplied None regexes find call fuel ms g0 = Ok (s, p) ->
+  inh_antichain t fl (s_scoped s) ->
+  Permutation (lmatches_of ms) ms' ->
+  exists r r', (forall i, r' (r i) = i) /\ (forall i, r (r' i) = i) /\ (forall i, i < N.of_nat (length g0) -> r i = i) /\
+    forall lfuel, match run_lazy t fl config0 supplied None regexes find call lfuel ms' g0 with
+                  | Ok (ls, _) => graph_iso r (s_graph s) (l_graph ls)
+                  | OutOfFuel => True
+                  | Err _ | Panic _ => False
+                  end.
+Proof. exact @strict_lazy_iso_any_order_scoped_every_fuel_lemma. Qed.
+
+(* FAILURE DIRECTION for every order, fragment v1: strict fails with an order-independent error => the lazy run on ANY permutation of the blocks returns Ok at no
+   fuel.  (Composed through the success direction of C08 read backwards — a success on ms' would give a success on the strict order from some fuel on;
+   lazy_block_order_fail_partial needs a fuel at which the strict-order lazy run is not OutOfFuel, and there need not be one: strict_fail_lazy_diverges_k2.) *)
+Theorem strict_fail_lazy_fail_any_order_partial :
+  forall (rx : Type) t fl supplied (regexes : list rx) find call (okfn : ident -> Prop),
+  (forall f, okfn f -> call_ok call f) ->
+  forall g0 : graph, gclosed (N.of_nat (length g0)) g0 ->
+  (forall glob, check_globals (f_globals fl) (globals_nested supplied) = Ok glob ->
+     forall name v, globals_get glob name = Some v -> vall (fun i => i < N.of_nat (length g0)) v) ->
+  forall fuel ms e (ms' : list (N * qmatch)),
+  call_graph_ext call ->
+  file_ok okfn fl (f_stanzas fl) ms ->
+  run_strict t fl config0 supplied None regexes find call fuel ms g0 = Err e ->
+  order_independent_error e ->
+  Permutation (lmatches_of ms) ms' ->
+  forall lfuel,
+    match run_lazy t fl config0 supplied None regexes find call lfuel ms' g0 with
+    | Ok _ => False
+    | Err _ | Panic _ | OutOfFuel => True
+    end.
+Proof. exact @strict_fail_lazy_fail_any_order_lemma. Qed.
+(* ... with the hypotheses of lazy_exec_no_panic (stated on the strict order; they are invariant under permutation): the lazy run IS Err unless the model runs out of fuel *)
+Theorem strict_fail_lazy_err_any_order_partial :
+  forall (rx : Type) t fl supplied (regexes : list rx) find call (okfn : ident -> Prop),
+  (forall f, okfn f -> call_ok call f) ->
+  forall g0 : graph, gclosed (N.of_nat (length g0)) g0 ->
+  (forall glob, check_globals (f_globals fl) (globals_nested supplied) = Ok glob ->
+     forall name v, globals_get glob name = Some v -> vall (fun i => i < N.of_nat (length g0)) v) ->
+  forall (sok : N -> Prop) fuel ms e (ms' : list (N * qmatch)),
+  call_graph_ext call ->
+  file_ok okfn fl (f_stanzas fl) ms ->
+  WellFormedFile regexes fl -> GoodMatchesLazy sok fl (lmatches_of ms) -> GoodGlobals sok g0 supplied -> GoodCall sok call ->
+  run_strict t fl config0 supplied None regexes find call fuel ms g0 = Err e ->
+  order_independent_error e ->
+  Permutation (lmatches_of ms) ms' ->
+  forall lfuel,
+    match run_lazy t fl config0 supplied None regexes find call lfuel ms' g0 with
+    | Err _ | OutOfFuel => True
+    | Ok _ | Panic _ => False
+    end.
+Proof. exact @strict_fail_lazy_err_any_order_lemma. Qed.
+
+(* THE DRIVER OF THE CORRESPONDENCE HARNESS.  `run_one t cfg budget r g0` (Model/Run.v) is the function the streams evaluate (both_verdict, c15_verdict0, ..):
+   with ri_lazy = false it is run_strict on the per-stanza raw matches ri_smatches, with ri_lazy = true it is run_lazy on the raw matches of the merged query
+   ri_lmatches, both at default_fuel with the regex model and the stdlib model (`the_call`).  Under A3 (the merged matches are a permutation of the per-stanza
+   matches) and on the fragments: if the strict run of a case returns a graph, the lazy run of the SAME case returns an isomorphic graph, unless the model runs
+   out of its default fuel (verdict code 7, reported by the harness); it never returns an error or a panic. *)
+Theorem strict_lazy_iso_run_one_partial :
+  forall t (r : run_in) (okfn : ident -> Prop) (g0 : graph),
+  (forall f, okfn f -> call_ok (the_call t (ri_tbl r)) f) ->
+  gclosed (N.of_nat (length g0)) g0 ->
+  (forall glob, check_globals (f_globals (ri_file r)) (globals_nested (ri_supplied r)) = Ok glob ->
+     forall name v, globals_get glob name = Some v -> vall (fun i => i < N.of_nat (length g0)) v) ->
+  Permutation (lmatches_of (ri_smatches r)) (ri_lmatches r) ->
+  forall g p,
+  file_ok okfn (ri_file r) (f_stanzas (ri_file r)) (ri_smatches r) ->
+  run_one t config0 None (with_lazy r false) g0 = Ok (g, p) ->
+  exists rn rn', (forall i, rn' (rn i) = i) /\ (forall i, rn (rn' i) = i) /\ (forall i, i < N.of_nat (length g0) -> rn i = i) /\
+    match run_one t config0 None (with_lazy r true) g0 with
+    | Ok (g', _) => graph_iso rn g g'
+    | OutOfFuel => True
+    | Err _ | Panic _ => False
+    end.
+Proof. exact strict_lazy_iso_run_one_lemma. Qed.
+Theorem strict_lazy_iso_run_one_scoped_partial :
+  forall t (r : run_in) (okfn : ident -> Prop) (g0 : graph),
+  (forall f, okfn f -> call_ok (the_call t (ri_tbl r)) f) ->
+  gclosed (N.of_nat (length g0)) g0 ->
+  (forall glob, check_globals (f_globals (ri_file r)) (globals_nested (ri_supplied r)) = Ok glob ->
+     forall name v, globals_get glob name = Some v -> vall (fun i => i < N.of_nat (length g0)) v) ->
+  Permutation (lmatches_of (ri_smatches r)) (ri_lmatches r) ->
+  forall (purev : ident -> bool) g p,
+  file_ok2 okfn purev (ri_file r) (f_stanzas (ri_file r)) (ri_smatches r) ->
+  Forall (pm_ok2 (ri_file r) okfn) (lmatches_of (ri_smatches r)) ->
+  (forall s p', run_strict t (ri_file r) config0 (ri_supplied r) None (ri_rxs r) rx_captures (the_call t (ri_tbl r)) default_fuel (ri_smatches r) g0 = Ok (s, p') ->
+                inh_antichain t (ri_file r) (s_scoped s)) ->
+  run_one t config0 None (with_lazy r false) g0 = Ok (g, p) ->
+  exists rn rn', (forall i, rn' (rn i) = i) /\ (forall i, rn (rn' i) = i) /\ (forall i, i < N.of_nat (length g0) -> rn i = i) /\
+    match run_one t config0 None (with_lazy r true) g0 with
+    | Ok (g', _) => graph_iso rn g g'
+    | OutOfFuel => True
+    | Err _ | Panic _ => False
+    end.
+Proof. exact strict_lazy_iso_run_one_scoped_lemma. Qed.
+Theorem strict_fail_lazy_fail_run_one_partial :
+  forall t (r : run_in) (okfn : ident -> Prop) (g0 : graph),
+  (forall f, okfn f -> call_ok (the_call t (ri_tbl r)) f) ->
+  gclosed (N.of_nat (length g0)) g0 ->
+  (forall glob, check_globals (f_globals (ri_file r)) (globals_nested (ri_supplied r)) = Ok glob ->
+     forall name v, globals_get glob name = Some v -> vall (fun i => i < N.of_nat (length g0)) v) ->
+  Permutation (lmatches_of (ri_smatches r)) (ri_lmatches r) ->
+  forall e,
+  call_graph_ext (the_call t (ri_tbl r)) ->
+  file_ok okfn (ri_file r) (f_stanzas (ri_file r)) (ri_smatches r) ->
+  run_one t config0 None (with_lazy r false) g0 = Err e ->
+  order_independent_error e ->
+  match run_one t config0 None (with_lazy r true) g0 with
+  | Ok _ => False
+  | Err _ | Panic _ | OutOfFuel => True
+  end.
+Proof. exact strict_fail_lazy_fail_run_one_lemma. Qed.
+
+(* non-vacuity (Proofs/SLAnyExample.v; tree "p\nq\nr\n", two stanzas with THREE matches each; ay_ms' interleaves the blocks, a reader first):
+     ay2:  (identifier) @x                            { node @x.n  attr (@x.n) k = (plus 1 2)  edge @x.n -> @x.n }
+           (expression_statement (identifier) @x) @s  { node m  edge m -> @x.n  attr (m -> @x.n) w = 7  attr (@x.n -> @x.n) l = #true  attr (m) c = @x.n  print @x.n }
+   the first stanza DEFINES @x.n and creates a loop edge, the second READS @x.n and attributes the other stanza's edge.  All hypotheses of
+   strict_lazy_iso_any_order_scoped_partial hold; strict and lazy (interleaved) both succeed, with DIFFERENT graphs that are isomorphic under ay2_r (computed), and
+   the theorem gives such an isomorphism for every fuel.  ay1: the same without scoped variables (fragment v1).  ay3: the failure direction (DuplicateAttribute). *)
+Example strict_lazy_iso_any_order_nonvacuous :
+  (forall f, c8_okfn f -> call_ok c8_call f) /\ Permutation (lmatches_of ay_ms) ay_ms' /\ lmatches_of ay_ms <> ay_ms' /\
+  (* ay2, scoped *)
+  file_ok2 c8_okfn (fun _ => false) ay2_file (f_stanzas ay2_file) ay_ms /\ Forall (pm_ok2 ay2_file c8_okfn) (lmatches_of ay_ms) /\
+  graph_of (run_strict k7_tree ay2_file config0 [[]] None ([] : list regex) rx_captures c8_call default_fuel ay_ms []) = Ok ay2_gs /\
+  lgraph_of (run_lazy k7_tree ay2_file config0 [[]] None ([] : list regex) rx_captures c8_call default_fuel ay_ms' []) = Ok ay2_gl /\
+  ay2_gs <> ay2_gl /\ graph_iso ay2_r ay2_gs ay2_gl /\ length ay2_gs = 6%nat /\
+  (exists r r', (forall i, r' (r i) = i) /\ (forall i, r (r' i) = i) /\
+     forall lfuel, match run_lazy k7_tree ay2_file config0 [[]] None ([] : list regex) rx_captures c8_call lfuel ay_ms' [] with
+                   | Ok (ls, _) => graph_iso r ay2_gs (l_graph ls) | OutOfFuel => True | Err _ | Panic _ => False end) /\
+  (* ay1, fragment v1 *)
+  file_ok c8_okfn ay1_file (f_stanzas ay1_file) ay_ms /\
+  graph_of (run_strict k7_tree ay1_file config0 [[]] None ([] : list regex) rx_captures c8_call default_fuel ay_ms []) = Ok ay1_gs /\
+  lgraph_of (run_lazy k7_tree ay1_file config0 [[]] None ([] : list regex) rx_captures c8_call default_fuel ay_ms' []) = Ok ay1_gl /\
+  ay1_gs <> ay1_gl /\ length ay1_gs = 9%nat /\
+  (exists r r', (forall i, r' (r i) = i) /\ (forall i, r (r' i) = i) /\
+     forall lfuel, match run_lazy k7_tree ay1_file config0 [[]] None ([] : list regex) rx_captures c8_call lfuel ay_ms' [] with
+                   | Ok (ls, _) => graph_iso r ay1_gs (l_graph ls) | OutOfFuel => True | Err _ | Panic _ => False end).
+Proof.
+  split; [exact c8_call_ok|]. split; [exact ay_perm|]. split; [discriminate|].
+  split; [exact ay2_file_ok|]. split; [exact ay2_blocks_ok|]. split; [exact ay2_strict_graph|]. split; [exact ay2_lazy|]. split; [exact ay2_differ|].
+  split; [exact ay2_iso|]. split; [reflexivity|]. split; [exact ay2_theorem_applies|].
+  split; [exact ay1_file_ok|]. split; [exact ay1_strict|]. split; [exact ay1_lazy|]. split; [exact ay1_differ|]. split; [reflexivity|exact ay1_theorem_applies].
+Qed.
+(* the failure direction applies: strict fails with DuplicateAttribute in the second stanza; the interleaved lazy run fails with the same cause, and the theorem excludes
+   success at every fuel *)
+Example strict_fail_lazy_fail_any_order_nonvacuous :
+  call_graph_ext c8_call /\ file_ok c8_okfn ay3_file (f_stanzas ay3_file) ay_ms /\
+  (exists e, run_strict k7_tree ay3_file config0 [[]] None ([] : list regex) rx_captures c8_call default_fuel ay_ms [] = Err e /\
+             root_cause e = EDuplicateAttribute /\ order_independent_error e) /\
+  err_cause (run_lazy k7_tree ay3_file config0 [[]] None ([] : list regex) rx_captures c8_call default_fuel ay_ms' []) = Some EDuplicateAttribute /\
+  (forall lfuel, match run_lazy k7_tree ay3_file config0 [[]] None ([] : list regex) rx_captures c8_call lfuel ay_ms' [] with
+                 | Ok _ => False | Err _ | Panic _ | OutOfFuel => True end).
+Proof. split; [exact ay_graph_ext|]. split; [exact ay3_file_ok|]. split; [exact ay3_strict|]. split; [exact ay3_lazy|exact ay3_theorem_applies]. Qed.
+(* the run_one form on the case record of ay2: strict (ri_smatches) and lazy (ri_lmatches, interleaved) through the harness driver *)
+Example strict_lazy_iso_run_one_nonvacuous :
+  Permutation (lmatches_of (ri_smatches ay2_run)) (ri_lmatches ay2_run) /\
+  drop_polls (run_one k7_tree config0 None (with_lazy ay2_run false) []) = Ok ay2_gs /\
+  drop_polls (run_one k7_tree config0 None (with_lazy ay2_run true) []) = Ok ay2_gl.
+Proof. split; [exact ay_perm|exact ay2_run_one]. Qed.
 
 Example c02_nonvacuous : nth_error [[97]; [98]] (N.to_nat 1) = Some [98] /\ nth_error [[97]; [98]] (N.to_nat 5) = None.
 Proof. split; reflexivity. Qed.
